@@ -12,7 +12,7 @@ validator where the handler has a descriptor, Python method otherwise),
 post_setattr (Model/Assign.lean).  Hypotheses on the environment (`EnvOK`) are
 facts about CPython / the adaptation registry / user functions.
 -/
-import TraitsVerif.Lemmas.ValSource
+import TraitsVerif.Lemmas.ValSource2
 import TraitsVerif.Lemmas.ValAssign
 import TraitsVerif.Generated.ValidateTables
 namespace TraitsVerif.Props.C01
@@ -113,24 +113,48 @@ theorem C01_reject_iff (E : Env) (cls : ClassDef) (st : State) (name : String) (
     step E cls st name v = (st, some .traitError) := by
   simp [step, ht, hv]
 
-/-- Full strength: any other exception `e` that surfaces was raised by the
-value's own `__index__` / `__float__` / `__complex__` (or the int → float
-overflow inside them) or by an overflowing numeric conversion.  FALSE of the
-pinned tree: `==` of the value can raise through BaseEnum (F45), and an `Any`
-member of a compound raises TypeError (F48). -/
-def C01_passthrough_full : Prop :=
-  ∀ (E : Env) (cls : ClassDef) (st : State) (name : String) (v : Val) (tt : TraitType) (e : Exc),
-    traitOf cls name = some tt → (step E cls st name v).2 = some e → e ≠ .traitError →
+/-- Any other exception `e` that surfaces leaves the object untouched and was
+raised by the value's own `__index__` / `__float__` / `__complex__` (or the
+int → float overflow inside them), by a type constructor called on the value
+(`int(float('inf'))`: the overflowing numeric conversion), or by one of the two
+documented user callbacks (an adapter factory, `fvalidate` of ValidatedTuple).
+Nothing else: no `==` of the value (F45 repaired: BaseEnum guards the
+containment check), no "NoneType is not callable" (F48 repaired: an `Any` member
+of a compound accepts), no user validator function (the C switch turns its
+exceptions into TraitError).  `realBase`: Base* classes wrap plain trait types. -/
+theorem C01_passthrough (E : Env) (hE : EnvOK E) (cls : ClassDef) (hwf : ClassWF cls)
+    (st : State) (name : String) (v : Val) (tt : TraitType) (e : Exc)
+    (ht : traitOf cls name = some tt) (hb : tt.realBase = true)
+    (h : (step E cls st name v).2 = some e) (hne : e ≠ .traitError) :
+    (step E cls st name v).1 = st ∧ Src2 E e := by
+  obtain ⟨hv, hst⟩ := step_error E cls st name v tt e ht (hwf name tt ht) h
+  refine ⟨hst, ?_⟩
+  rcases hv with ⟨_, he⟩ | hv
+  · exact absurd he hne
+  · exact (srcP2_all E hE.castIdem tt hb).2 v e hv
+
+/-- The statement's wording exactly: with user callbacks that do not raise, the
+only sources left are the value's conversion protocol and type constructors. -/
+theorem C01_passthrough_quiet_callbacks (E : Env) (hE : EnvOK E) (cls : ClassDef) (hwf : ClassWF cls)
+    (st : State) (name : String) (v : Val) (tt : TraitType) (e : Exc)
+    (ht : traitOf cls name = some tt) (hb : tt.realBase = true)
+    (hadapt : ∀ x c e', E.adapt x c ≠ .error e') (hpred : ∀ f x e', E.pred f x ≠ .error e')
+    (h : (step E cls st name v).2 = some e) (hne : e ≠ .traitError) :
     (step E cls st name v).1 = st ∧
     ((∃ x, index x = .error e) ∨ (∃ x, asDouble x = .error e) ∨ (∃ x, asComplex x = .error e) ∨
-     (∃ t x, E.cast t x = .error e))
+     (∃ t x, E.cast t x = .error e)) := by
+  obtain ⟨h1, h2⟩ := C01_passthrough E hE cls hwf st name v tt e ht hb h hne
+  refine ⟨h1, ?_⟩
+  rcases h2 with h | h | h | h | ⟨x, c, h⟩ | ⟨f, x, h⟩
+  · exact Or.inl h
+  · exact Or.inr (Or.inl h)
+  · exact Or.inr (Or.inr (Or.inl h))
+  · exact Or.inr (Or.inr (Or.inr h))
+  · exact absurd h (hadapt x c e)
+  · exact absurd h (hpred f x e)
 
-/-- Proved: every exception other than TraitError leaves the object untouched,
-and it was raised by one of the things the validators call out to (`Src`: the
-value's numeric protocol, a type constructor, adapt, a user validator or
-fvalidate predicate, an `==` of the value) or is the TypeError of an `Any` member — nothing else in the
-validators can raise.  What is missing for the full statement are exactly the
-last three sources of `Src`. -/
+/-- Without `realBase` (arbitrary terms of the model, Python paths of legacy
+handlers included) the weaker provenance `Src` still holds. -/
 theorem C01_passthrough_partial (E : Env) (hE : EnvOK E) (cls : ClassDef) (hwf : ClassWF cls)
     (st : State) (name : String) (v : Val) (tt : TraitType) (e : Exc)
     (ht : traitOf cls name = some tt) (h : (step E cls st name v).2 = some e) (hne : e ≠ .traitError) :
@@ -141,9 +165,12 @@ theorem C01_passthrough_partial (E : Env) (hE : EnvOK E) (cls : ClassDef) (hwf :
   · exact absurd he hne
   · exact (srcP_all E hE.castIdem tt).2.1 v e hv
 
-/-- F45: BaseEnum lets the exception of `==` out. -/
-theorem C01_passthrough_fails_at_base_enum :
-    validate E0 (.noFast (.enum [Val.ofInt 1])) (.atom (.badEq 0)) = .raised .valueError := by decide
+example : (TraitType.either [.noFast (.enum [Val.ofInt 1]), .any, .tuple [.int, .validatedTuple [.float] none]]
+    false).realBase = true := by decide
+/-- BaseEnum on a value whose `==` raises: TraitError (was ValueError before the F45 repair). -/
+example : validate E0 (.noFast (.enum [Val.ofInt 1])) (.atom (.badEq 0)) = .traitError := by decide
+/-- Either(Int, Any) on a string: the Any member accepts (was TypeError before the F48 repair). -/
+example : validate E0 (.either [.int, .any] false) (Val.ofStr "a") = .ok (Val.ofStr "a") := by decide
 
 /-! ## Histories: every readable value is in its domain -/
 
